@@ -441,6 +441,14 @@ bool TypeAuditor::ViGlobal(Cursor iter) {
     );
     return false;
   }
+  if (std::holds_alternative<LogicT>(*type) && !iter.IsRoot() && iter.Parent().id != TokenID::PUNC_DEFINE) {
+    OnError(
+      SemanticEID::invalidTypeOperation,
+      iter->pos.start,
+      ToString(*type)
+    );
+    return false;
+  }
   return SetCurrent(*type);
 }
 
